@@ -233,13 +233,18 @@ class Gen(object):
 
     def stmt(self, d):
         r = self.rnd
-        kinds = ['assign', 'assign', 'assign', 'create', 'select_from', 'attr_write', 'select_related', 'relate', 'relate_using']
+        kinds = ['assign', 'assign', 'assign', 'create', 'select_from', 'attr_write', 'select_related', 'attr_write', 'select_related']
+        # (a relate / unrelate chosen blindly is often rejected, which puts the whole program outside the domain)
+        if self.syntax_only or r.random() < 0.3:
+            kinds += ['relate', 'relate_using']
         if d < self.maxdepth:
             kinds += ['if', 'if', 'while', 'for']
         if self.loops:
             kinds += ['break', 'continue']
         if d > 0:
             kinds += ['return']
+            if not self.syntax_only and r.random() < 0.25:
+                kinds += ['control']
         if self.live_insts():
             kinds += ['delete']
         if self.syntax_only:
@@ -387,6 +392,8 @@ class Gen(object):
             return {'t': 'continue'}
         if k == 'return':
             return Ret(self.maybe_paren(self.expr(r.choice(['int', 'int', 'bool', 'str']))) if r.random() < 0.85 else None)
+        if k == 'control':
+            return {'t': 'control'}
         if k == 'syntax':
             return self.syntax_stmt()
         if k == 'callable':
